@@ -250,6 +250,10 @@ def sample_tt(n, r=4, seed=None):
         specified expected TT-rank (r).
 
     """
+    if not isinstance(seed, (int, np.integer)):
+        # One stream for all modes (as for an integer seed):
+        seed = int(teneva._rand(seed).integers(2**31))
+
     def one_mode(sh1, sh2, rng):
         res = []
         if len(sh2) == 0:
